@@ -163,3 +163,6 @@ check("C20",
       design_ref="DESIGN.md 5/C20",
       level_text="exhaustive over the stated product; deadlock/termination decided at quiescence with all repo mutexes visible",
       level_note="data-race freedom is not decidable by a schedule explorer at synchronisation granularity; it is covered by the complementary free-running -race pass (sampling) and flagged as such")
+CHECKS["C09"]["packages"] = ["l1chan", "l2node", "l2transport"]
+CHECKS["C10"]["packages"] = ["l2node", "l2transport"]
+CHECKS["C07"]["packages"] = ["l1chan", "l2transport"]
